@@ -73,7 +73,12 @@ def binWidth : Ty → Option Nat
 /-- imp \t <C10|C11> \t <format> \t <ty> \t <Dyn v> \t <ext> \t <impl>: `ImportAtKey` into a declared column
     of a fresh row. Oracle (C10, last sentence): after a successful import the raw value of a
     column declared with raw type T is nil or a T. -/
-def runImp (prop fS tyS srcS extS implS0 : String) : Result :=
+def runImp (prop fS tyS srcS extS implS00 : String) : Result :=
+  -- a refused import that LEFT something in the cell: "err <class> left=<hex of the raw value>" — a refused value
+  -- leaves null (the model: `importByFormat` returns the nil cell with the error)
+  if (implS00.splitOn " left=").length > 1 then
+    ⟨"P", s!"imp {fS}({tyS}) {srcS}: impl [{implS00}] violates {prop}: key=refused-value-left-in-the-cell"⟩ else
+  let implS0 := implS00
   -- C11 cases carry "ok <raw> => <re-emitted value>"
   let (implS, reS) : String × Option String :=
     match implS0.splitOn " => " with
